@@ -895,19 +895,15 @@ func (m *MutableOverlayWorld) AddFeature(f Feature) error {
 }
 
 func (m *MutableOverlayWorld) AddTag(id b6.FeatureID, tag b6.Tag) error {
-	tokenAfter, indexedAfter := b6.TokenForTag(tag)
+	_, indexedAfter := b6.TokenForTag(tag)
 	if f := m.features.FindMutableFeatureByID(id); f != nil {
-		var tokenBefore string
-		var indexedBefore bool
-		if before := f.Get(tag.Key); before.IsValid() {
-			if tokenBefore, indexedBefore = b6.TokenForTag(before); indexedBefore && (!indexedAfter || tokenBefore != tokenAfter) {
-				m.index.Remove(f, []string{tokenBefore})
-			}
-		}
+		// All tokens are recomputed, since whether a point is indexed at
+		// all depends on whether it has tags beyond its location.
+		before := TokensForFeature(WrapFeature(f, m))
 		f.ModifyOrAddTag(tag)
-		if indexedAfter && (!indexedBefore || tokenBefore != tokenAfter) {
-			m.index.Add(f, []string{tokenAfter})
-		}
+		added, removed := sortAndDiffTokens(before, TokensForFeature(WrapFeature(f, m)))
+		m.index.Remove(f, removed)
+		m.index.Add(f, added)
 	} else {
 		base := m.base.FindFeatureByID(id)
 		if base == nil {
@@ -930,12 +926,11 @@ func (m *MutableOverlayWorld) AddTag(id b6.FeatureID, tag b6.Tag) error {
 
 func (m *MutableOverlayWorld) RemoveTag(id b6.FeatureID, key string) error {
 	if f := m.features.FindMutableFeatureByID(id); f != nil {
-		if tag := f.Get(key); tag.IsValid() {
-			if token, indexed := b6.TokenForTag(tag); indexed {
-				m.index.Remove(f, []string{token})
-			}
-		}
+		before := TokensForFeature(WrapFeature(f, m))
 		f.RemoveTag(key)
+		added, removed := sortAndDiffTokens(before, TokensForFeature(WrapFeature(f, m)))
+		m.index.Remove(f, removed)
+		m.index.Add(f, added)
 	} else {
 		base := m.base.FindFeatureByID(id)
 		if base == nil {
